@@ -48,3 +48,10 @@ package agent
 //@ census[C28] sleep.(*Manager).Sleep in (*Agent).Start, (*Agent).TriggerSleep, (*Agent).handleQueuedState, (*Agent).handleSleepCommand
 //@ census[C28] sleep.(*Manager).Wake in (*Agent).TriggerWake, (*Agent).doPoll, (*Agent).handleQueuedState, (*Agent).handleWakeCommand
 //@ note Start, TriggerSleep/TriggerWake and doPoll are local paths (configuration, operator request, wake signal raised by handleWakeCommand after acceptance), not frame handlers
+
+// ---- C20: the port-forward key handed to the endpoint is exactly the text after the "forward:" prefix ----
+
+//@ func (*Agent).handleStreamOpen
+//@ prop C20
+//@ modifies *
+//@ at call forward.(*Handler).HandleStreamOpen assert hasprefix(destAddr, protocol.ForwardStreamPrefix) && $5 == destAddr[len(protocol.ForwardStreamPrefix):]
